@@ -524,6 +524,10 @@ static Str readToEof(int fd, int ms)
 // replace the value of a Date header in the header block (current time) and the port in Host
 static Str canonWire(const Str& w, int port)
 {
+	if (w.compare(0, 13, "HTTP/1.1 100 ") == 0) { // interim response first: the final message follows
+		size_t e = w.find("\r\n\r\n");
+		if (e != Str::npos && e + 4 < w.size()) return w.substr(0, e + 4) + canonWire(w.substr(e + 4), port);
+	}
 	Str s = w;
 	size_t he = s.find("\r\n\r\n");
 	if (he == Str::npos) he = s.size();
@@ -544,12 +548,14 @@ static Str canonWire(const Str& w, int port)
 	return s;
 }
 
+static size_t wireHexLimit = 160;   // op `wirelimit <n>`: print captured bytes in full up to n bytes (debugging replays)
+
 static Str wireStr(const Str& w)
 {
 	char b[64];
 	snprintf(b, sizeof b, "W%llu.%016llx", (U64)w.size(), fnv(w.data(), w.size()));
 	Str s = b;
-	if (w.size() <= 160) s += " " + hex(w);
+	if (w.size() <= wireHexLimit) s += " " + hex(w);
 	return s;
 }
 
@@ -728,6 +734,7 @@ static void reset()
 	for (size_t i = 0; i < caseFiles.size(); i++) unlink(caseFiles[i].c_str());
 	caseFiles.clear();
 	optionsToHandler = false;
+	wireHexLimit = 160;
 }
 
 static Str obsOrDash(Slot& sl) { return sl.seen.called ? sl.seen.line : Str("H-"); }
@@ -1324,6 +1331,7 @@ static std::string step(const Toks& t)
 	if (op == "sockio") return opSockio(t);
 	if (op == "par") return opPar(t);
 	if (op == "dl") return opDl(t);
+	if (op == "wirelimit" && t.size() == 2) { wireHexLimit = (size_t)atoll(t[1].c_str()); return "ok"; }
 	if (op == "options") { optionsToHandler = t.size() > 1 && t[1] == "1"; return "ok"; }
 	return "bad-op";
 }
